@@ -195,6 +195,20 @@ func genC07(e *emitter, tier string, seed uint64) {
 			}
 		}
 	}
+	// pay-to-script-hash: the redeem script is parsed at run time, long after the option checks — opcodes that need a
+	// transaction (signature checks, lock-time checks) inside it, with every kind of context including none at all
+	for _, redeem := range [][]byte{{0xac}, {0xad}, {0xae}, {0xaf}, {0xb1}, {0xb2}, {0x51, 0x51, 0xac}, {0x00, 0x00, 0x00, 0xae},
+		{0x51, 0xb2, 0x75}, {0x51, 0xb1, 0x75}, {0x63, 0xac, 0x68}, {0x00, 0x63, 0xac, 0x68, 0x51}, {0x6a, 0xac}} {
+		lock := append(append([]byte{0xa9, 0x14}, hash160(redeem)...), 0x87)
+		for _, args := range [][]byte{{}, {0x51, 0x51}, {0x00, 0x51, 0x51}} {
+			u := append(append([]byte{}, args...), rawPush(redeem)...)
+			for _, fl := range []int{fBip16, fBip16 | fCLTV | fCSV, fBip16 | fForkID, fBip16 | fAfterGenesis, 0} {
+				for kind := 0; kind < 8; kind++ {
+					total(fl, u, lock, kind, 0)
+				}
+			}
+		}
+	}
 	// random scripts x sampled flag sets x every context kind x valid and invalid indices
 	for i := 0; i < n; i++ {
 		flags := 0
